@@ -95,9 +95,9 @@ int main(void)
 	    /* E <proto> [byvalue]: sockets with control interfaces; `byvalue` gives the client its TLS credentials by value */
 	    static char before[64][300], after[64][300];
 	    struct xcm_attr_map *cm = NULL;
-	    if (n == 3 && !strcmp(w[2], "byvalue")) {
+	    if (n == 3 && (!strcmp(w[2], "byvalue") || !strcmp(w[2], "byvalue-ec"))) {
 		cm = xcm_attr_map_create();
-		const char *dir = getenv("XCM_TLS_CERT");
+		const char *dir = !strcmp(w[2], "byvalue-ec") ? getenv("VERIF_ECDIR") : getenv("XCM_TLS_CERT");
 		const char *files[3] = { "cert.pem", "key.pem", "tc.pem" }, *names[3] = { "tls.cert", "tls.key", "tls.tc" };
 		for (int i = 0; i < 3; i++) {
 		    char p[400]; snprintf(p, sizeof(p), "%s/%s", dir, files[i]);
@@ -187,6 +187,16 @@ int main(void)
 		kind = "getall";
 	    }
 	    ssize_t rr = raw_reply(fd, r);
+	    if (rr > 0) {
+		/* whatever the reply says: the datagram must not carry the private key */
+		static char keyv[16384]; enum xcm_attr_type kt;
+		int kl = xcm_attr_get(s, "tls.key", &kt, keyv, sizeof(keyv));
+		if (kl >= 48) {
+		    /* the base64 body, past the PEM header line */
+		    const char *body = memchr(keyv, '\n', kl);
+		    if (body && (keyv + kl) - body > 40 && memmem(r, (size_t)rr, body + 1, 32) != NULL) fputs("!KEY-DISCLOSED ", o);
+		}
+	    }
 	    if (rr == -1) fprintf(o, "%s noreply", kind);
 	    else if (rr == 0) fprintf(o, "%s closed", kind);
 	    else if (rr != sizeof(*r)) fprintf(o, "%s badsize=%zd", kind, rr);
@@ -289,6 +299,39 @@ int main(void)
 	    if (fd >= 0) { send(fd, q, sizeof(*q), MSG_NOSIGNAL); again = raw_reply(fd, r) == sizeof(*r); close(fd); }
 	    service(8);
 	    fprintf(o, "sessions connected=%d answered=%d served_after=%d\n", connected, answered, again);
+	    free(q); free(r);
+	} else if (!strcmp(w[0], "MIX") && n == 2) {
+	    /* MIX <sock>: session A floods requests without reading until a reply is pending, then hangs up; the idle session
+	       B must receive nothing it did not ask for, and its own request must be answered with its own answer */
+	    struct xcm_socket *s = sock_of(w[1]);
+	    int a = raw_connect(path_of(w[1])); service(8);
+	    int b = raw_connect(path_of(w[1])); service(8);
+	    struct ctl_proto_msg *q = calloc(1, sizeof(*q)), *r = calloc(1, sizeof(*r));
+	    q->type = ctl_proto_type_get_attr_req; strcpy(q->get_attr_req.attr_name, "xcm.type");
+	    int flooded = 0;
+	    for (int i = 0; i < 400 && a >= 0; i++) {
+		if (send(a, q, sizeof(*q), MSG_NOSIGNAL) < 0) break;
+		flooded++;
+		service(3);
+	    }
+	    service(40);
+	    if (a >= 0) close(a);
+	    service(60);
+	    int unsolicited = 0;
+	    if (b >= 0 && recv(b, r, sizeof(*r), 0) > 0) unsolicited = 1;
+	    int answered = 0, matches = 0;
+	    if (b >= 0) {
+		memset(q, 0, sizeof(*q)); q->type = ctl_proto_type_get_attr_req; strcpy(q->get_attr_req.attr_name, "xcm.transport");
+		send(b, q, sizeof(*q), MSG_NOSIGNAL);
+		if (raw_reply(b, r) == sizeof(*r)) {
+		    answered = 1;
+		    char v[64] = ""; xcm_attr_get_str(s, "xcm.transport", v, sizeof(v));
+		    matches = r->type == ctl_proto_type_get_attr_cfm && !strcmp(r->get_attr_cfm.attr.str_value, v);
+		}
+		close(b);
+	    }
+	    service(20);
+	    fprintf(o, "mix flooded=%d unsolicited=%d answered=%d matches=%d\n", flooded, unsolicited, answered, matches);
 	    free(q); free(r);
 	} else if (!strcmp(w[0], "D") && n == 2) {
 	    /* D <count>: data path oracle: count messages client -> accepted while ctl sessions come and go */
